@@ -3,6 +3,7 @@ package rules
 import (
 	"fmt"
 	"go/ast"
+	"go/types"
 	"regexp"
 	"strconv"
 	"strings"
@@ -14,46 +15,195 @@ import (
 // with the runes it reads, independently of how the loop is written (switch or if chain, helpers, variable names).
 
 type classParse struct {
-	fd       *ast.FuncDecl
-	recv     string
-	readLoop *ast.ForStmt
-	extract  *ast.RangeStmt
-	iter     []bpath // normalised paths of one iteration of the reading loop
-	first    string  // text of the first rune read in an iteration
-	second   string  // text of the rune read after a backslash
-	chars    string  // the container plain members are appended to
+	fd        *ast.FuncDecl
+	recv      string
+	readLoop  *ast.ForStmt
+	readFd    *ast.FuncDecl // the function that holds the reading loop (parse, or a helper it delegates to)
+	extract   ast.Stmt      // the loop that separates single members from ranges (range or counted loop)
+	extBody   []ast.Stmt
+	extractFd *ast.FuncDecl
+	classes   string  // the container Unicode class names are appended to, as written in readFd's normal form
+	extChars  string  // the containers of the extraction loop that end up in recv.Chars / recv.Ranges
+	extRanges string
+	iter      []bpath // normalised paths of one iteration of the reading loop
+	first     string  // text of the first rune read in an iteration
+	second    string  // text of the rune read after a backslash
+	chars     string  // the container plain members are appended to
 }
 
 var resReadRe = regexp.MustCompile(`^(nth\d+\()?res0\((\$\d+)\.ReadRune\(\)\)\)?$`)
+
+// resultField: helper (called from parse, directly) delivers its i-th result into which field of the receiver?
+// Returns, for the helper's own naming, local name -> receiver field.
+func (cp *classParse) resultFields(g *load.G, helper *ast.FuncDecl) map[string]string {
+	out := map[string]string{}
+	if helper == cp.fd {
+		return out
+	}
+	ap := g.Pkg("ast")
+	// the call in parse and its targets
+	var targets []string
+	ast.Inspect(cp.fd.Body, func(n ast.Node) bool {
+		as, ok := n.(*ast.AssignStmt)
+		if !ok || len(as.Rhs) != 1 {
+			return true
+		}
+		ce, ok := as.Rhs[0].(*ast.CallExpr)
+		if !ok {
+			return true
+		}
+		var id *ast.Ident
+		switch f := ce.Fun.(type) {
+		case *ast.Ident:
+			id = f
+		case *ast.SelectorExpr:
+			id = f.Sel
+		}
+		if id == nil || ap.TypesInfo.Uses[id] != ap.TypesInfo.Defs[helper.Name] {
+			return true
+		}
+		for _, l := range as.Lhs {
+			targets = append(targets, nospace(l))
+		}
+		return true
+	})
+	// a local target that is stored into a field afterwards
+	for i, tg := range targets {
+		if strings.HasPrefix(tg, cp.recv+".") {
+			targets[i] = strings.TrimPrefix(tg, cp.recv+".")
+			continue
+		}
+		field := ""
+		ast.Inspect(cp.fd.Body, func(n ast.Node) bool {
+			if as, ok := n.(*ast.AssignStmt); ok && len(as.Lhs) == len(as.Rhs) {
+				for k := range as.Lhs {
+					if nospace(as.Rhs[k]) == tg && strings.HasPrefix(nospace(as.Lhs[k]), cp.recv+".") {
+						field = strings.TrimPrefix(nospace(as.Lhs[k]), cp.recv+".")
+					}
+				}
+			}
+			return true
+		})
+		targets[i] = field
+	}
+	// the helper's results by position: named results, or the identifiers every return statement gives
+	var names []string
+	if helper.Type.Results != nil {
+		for _, f := range helper.Type.Results.List {
+			for _, nm := range f.Names {
+				names = append(names, nm.Name)
+			}
+		}
+	}
+	if len(names) == 0 {
+		for _, rs := range returnsOf(helper) {
+			for i, rv := range rs.Results {
+				for len(names) <= i {
+					names = append(names, "")
+				}
+				if id, ok := rv.(*ast.Ident); ok {
+					names[i] = id.Name
+				}
+			}
+		}
+	}
+	for i, nm := range names {
+		if i < len(targets) && nm != "" && targets[i] != "" {
+			out[nm] = targets[i]
+		}
+	}
+	return out
+}
 
 func (c *Ctx) classParse() *classParse {
 	g := c.G()
 	if g == nil {
 		return nil
 	}
-	fd := load.FuncDecl(g.Pkg("ast"), "CharClassMatcher", "parse")
+	ap := g.Pkg("ast")
+	fd := load.FuncDecl(ap, "CharClassMatcher", "parse")
 	if fd == nil || fd.Body == nil {
 		c.R.Fatal("anchor ast.CharClassMatcher.parse not found")
 		return nil
 	}
 	cp := &classParse{fd: fd, recv: recvName(fd)}
-	for _, st := range fd.Body.List {
-		if ls, ok := st.(*ast.LabeledStmt); ok {
-			st = ls.Stmt
-		}
-		switch x := st.(type) {
-		case *ast.ForStmt:
-			if x.Cond == nil && cp.readLoop == nil {
-				cp.readLoop = x
+	// the two loops, in parse or in the helpers it delegates to, in call order
+	helpers := map[types.Object]*ast.FuncDecl{}
+	for _, h := range withHelpers(ap, fd) {
+		helpers[ap.TypesInfo.Defs[h.Name]] = h
+	}
+	var visit func(f *ast.FuncDecl, depth int)
+	visit = func(f *ast.FuncDecl, depth int) {
+		for _, st := range f.Body.List {
+			if ls, ok := st.(*ast.LabeledStmt); ok {
+				st = ls.Stmt
 			}
-		case *ast.RangeStmt:
-			cp.extract = x
+			switch x := st.(type) {
+			case *ast.ForStmt:
+				reads := false
+				for _, ce := range callsIn(x.Body) {
+					if callSel(ce) == "ReadRune" {
+						reads = true
+					}
+				}
+				if x.Cond == nil && cp.readLoop == nil && reads {
+					cp.readLoop, cp.readFd = x, f
+					continue
+				}
+				if cp.readLoop != nil && x.Cond != nil {
+					cp.extract, cp.extBody, cp.extractFd = x, x.Body.List, f
+				}
+				continue
+			case *ast.RangeStmt:
+				if cp.readLoop != nil {
+					cp.extract, cp.extBody, cp.extractFd = x, x.Body.List, f
+				}
+				continue
+			}
+			if depth < 3 {
+				for _, ce := range callsIn(st) {
+					var id *ast.Ident
+					switch fn := ce.Fun.(type) {
+					case *ast.Ident:
+						id = fn
+					case *ast.SelectorExpr:
+						id = fn.Sel
+					}
+					if id != nil {
+						if h := helpers[ap.TypesInfo.Uses[id]]; h != nil && h != f {
+							visit(h, depth+1)
+						}
+					}
+				}
+			}
 		}
 	}
+	visit(fd, 0)
 	if cp.readLoop == nil || cp.extract == nil {
 		return cp
 	}
-	cp.iter = c.astNorm().normBlock(fd, cp.readLoop.Body.List)
+	// the containers, in the naming of the function that holds each loop
+	var readNames, extNames map[string]string
+	cp.iter, readNames = c.astNorm().normBlockNamed(cp.readFd, cp.readLoop.Body.List)
+	_, extNames = c.astNorm().normBlockNamed(cp.extractFd, cp.extBody)
+	cp.classes = cp.recv + ".UnicodeClasses"
+	for local, field := range cp.resultFields(g, cp.readFd) {
+		if field == "UnicodeClasses" && readNames[local] != "" {
+			cp.classes = readNames[local]
+		}
+	}
+	cp.extChars, cp.extRanges = cp.recv+".Chars", cp.recv+".Ranges"
+	for local, field := range cp.resultFields(g, cp.extractFd) {
+		if extNames[local] == "" {
+			continue
+		}
+		switch field {
+		case "Chars":
+			cp.extChars = extNames[local]
+		case "Ranges":
+			cp.extRanges = extNames[local]
+		}
+	}
 	// the first rune: the value of the first ReadRune of the iteration; the escape letter: the second one, read under
 	// first == '\\'; the members' container: where a non-backslash first rune is appended
 	for _, p := range cp.iter {
@@ -244,7 +394,7 @@ func classKeepsEveryRuneN(c *Ctx, rule string) {
 		n++
 		k := 0
 		for _, e := range p {
-			if e.Kind == "set" && (strings.Contains(e.Text, "=append(") && (cp.chars != "" && strings.HasPrefix(e.Text, cp.chars+"=append(") || strings.HasPrefix(e.Text, cp.recv+".UnicodeClasses=append("))) {
+			if e.Kind == "set" && (strings.Contains(e.Text, "=append(") && (cp.chars != "" && strings.HasPrefix(e.Text, cp.chars+"=append(") || strings.HasPrefix(e.Text, cp.classes+"=append("))) {
 				k++
 			}
 		}
@@ -260,9 +410,9 @@ func classKeepsEveryRuneN(c *Ctx, rule string) {
 	}
 	r.Check(len(bad) == 0, rule, "G.ast.CharClassMatcher.parse:reading-loop-keeps-every-rune", "", g.Where(cp.readLoop.Pos()), fmt.Sprintf("%d paths, each stores exactly one member", n), strings.Join(uniq(bad), "; "))
 	bad = nil
-	paths := c.astNorm().normBlock(cp.fd, cp.extract.Body.List)
+	paths := c.astNorm().normBlock(cp.extractFd, cp.extBody)
 	for _, p := range paths {
-		if p.countSets(cp.recv+".Chars=append(")+p.countSets(cp.recv+".Ranges=append(") == 0 {
+		if p.countSets(cp.extChars+"=append(")+p.countSets(cp.extRanges+"=append(") == 0 {
 			bad = append(bad, "the extraction loop stores nothing on the path ["+strings.Join(p.facts(), " ")+"]")
 		}
 	}
@@ -281,35 +431,44 @@ func classFlagsN(c *Ctx, rule string) {
 	paths := c.astNorm().normPaths(cp.fd)
 	var bad []string
 	val := cp.recv + ".Val"
+	// "the text ends in i", in either spelling
+	suffixForms := []string{`strings.HasSuffix(` + val + `,"i")`, "len(" + val + ")>0&&" + val + "[len(" + val + ")-1]=='i'"}
+	isSuffix := func(s string) bool { return s == suffixForms[0] || s == suffixForms[1] }
+	saysSuffix := func(p bpath, neg bool) bool {
+		for _, f := range p.facts() {
+			for _, sf := range suffixForms {
+				if f == canonText(sf, neg) {
+					return true
+				}
+			}
+		}
+		return false
+	}
 	for _, p := range paths {
 		ic, i1 := lastSet(p, cp.recv+".IgnoreCase")
-		if i1 < 0 || ic != `strings.HasSuffix(`+val+`,"i")` {
+		if i1 < 0 || !isSuffix(ic) {
 			bad = append(bad, "IgnoreCase is "+ic+", expected strings.HasSuffix("+val+`,"i")`)
 			continue
 		}
-		for _, f := range p[:i1].facts() {
-			bad = append(bad, "IgnoreCase is set only under `"+f+"`")
-		}
+		// every path stores the test itself (a path that skipped the store was reported above): the flag depends on
+		// nothing else
 		inv, i2 := lastSet(p, cp.recv+".Inverted")
-		if i2 < 0 {
-			continue // the class text ended before (empty class): nothing to invert
-		}
 		// the text whose first character is tested: Val without the i suffix (iff IgnoreCase) and without the brackets
 		base := val
-		if p.holds(cp.recv+".IgnoreCase") || p.holds(`strings.HasSuffix(`+val+`,"i")`) {
+		if p.holds(cp.recv+".IgnoreCase") || saysSuffix(p, false) {
 			base = "(" + val + "[:len(" + val + ")-1])"
 		}
 		want1 := base + "[1:len(" + base + ")-1]"
 		wantInv := "(" + want1 + ")[0]=='^'"
-		if minParens(inv) != minParens(wantInv) {
-			bad = append(bad, "Inverted is "+abbreviate(inv)+", expected the test of the first character after the brackets ("+wantInv+")")
-		}
-		for _, f := range p[:i2].facts() {
-			okf := f == cp.recv+".IgnoreCase" || f == "!"+cp.recv+".IgnoreCase" || strings.HasPrefix(f, "len(") && strings.HasSuffix(f, ">0") ||
-				f == `strings.HasSuffix(`+val+`,"i")` || f == `!strings.HasSuffix(`+val+`,"i")`
-			if !okf {
-				bad = append(bad, "Inverted is set only under `"+abbreviate(f)+"`")
+		empty := p.holds("len(" + minParens(want1) + ")==0")
+		if i2 < 0 {
+			if !empty {
+				bad = append(bad, "Inverted is not set on a path with a non-empty class text ["+abbreviate(strings.Join(p.facts(), " "))+"]")
 			}
+			continue // the class text ended before (empty class): nothing to invert
+		}
+		if !(minParens(inv) == minParens(wantInv) || (inv == "false" && empty)) {
+			bad = append(bad, "Inverted is "+abbreviate(inv)+", expected the test of the first character after the brackets ("+wantInv+")")
 		}
 	}
 	if len(paths) == 0 {
